@@ -6,7 +6,7 @@ export PYTHONHASHSEED=0
 /venv/bin/python harness/gen_tables.py
 cd coq && coq_makefile -f _CoqProject -o Makefile >/dev/null && (timeout 3000 make -k -j16 2>&1 | grep -v "^COQDEP\|^COQC\|Closed under\|Not a truly" || true)
 mkdir -p /verif/build && cd /verif/build
-timeout 600 coqc -Q ../coq/model TS ../coq/extract/Extract.v >/dev/null
+timeout 600 coqc -Q ../coq/model TS -Q ../coq/gen TS ../coq/extract/Extract.v >/dev/null
 cp ../ocaml/driver.ml .
 timeout 600 ocamlfind ocamlopt -O2 -w -a tsmodel.mli tsmodel.ml driver.ml -o tsmodel
 echo setup done
